@@ -11,6 +11,7 @@ import (
 	"sort"
 	"strings"
 	"sync"
+	"time"
 )
 
 // Violation is one witness of a property violation found by a monitor.
@@ -39,21 +40,24 @@ type Result struct {
 
 // Ctx is handed to a property driver running in a child process.
 type Ctx struct {
-	mu         sync.Mutex
-	Prop       string
-	Tier       string
-	Seed       int64
-	Batch      int
-	NBatch     int
-	OnlyCase   string // replay filter ("" = all)
-	WorkDir    string
-	res        Result
-	distinct   map[string]struct{}
-	vioKeys    map[string]int
-	journal    *os.File
-	maxSamp    int
-	startAfter string
-	skipping   bool
+	mu          sync.Mutex
+	Prop        string
+	Tier        string
+	Seed        int64
+	Batch       int
+	NBatch      int
+	OnlyCase    string // replay filter ("" = all)
+	WorkDir     string
+	res         Result
+	distinct    map[string]struct{}
+	vioKeys     map[string]int
+	journal     *os.File
+	maxSamp     int
+	startAfter  string
+	skipping    bool
+	partialPath string
+	lastFlush   time.Time
+	nCases      int
 }
 
 func NewCtx(prop, tier string, seed int64, batch, nbatch int, workDir, journalPath, onlyCase string) *Ctx {
@@ -164,10 +168,12 @@ func (c *Ctx) Inconclusive(what string) {
 }
 
 // Finish writes the result file atomically.
-func (c *Ctx) Finish(path string) error {
+func (c *Ctx) Finish(path string) error { return c.write(path, true) }
+
+func (c *Ctx) write(path string, done bool) error {
 	c.mu.Lock()
 	defer c.mu.Unlock()
-	c.res.Done = true
+	c.res.Done = done
 	c.res.Distinct = c.res.Distinct[:0]
 	for k := range c.distinct {
 		c.res.Distinct = append(c.res.Distinct, k)
@@ -241,5 +247,14 @@ func (c *Ctx) Case(id string) bool {
 		return false
 	}
 	c.Journal("CASE %s", id)
+	c.nCases++
+	if c.partialPath != "" && c.nCases%200 == 0 && time.Since(c.lastFlush) > 2*time.Second {
+		c.lastFlush = time.Now()
+		_ = c.write(c.partialPath, false)
+	}
 	return true
 }
+
+// SetPartialPath enables periodic snapshots of the observations made so far,
+// so that a process death does not lose what was already observed.
+func (c *Ctx) SetPartialPath(p string) { c.partialPath = p; c.lastFlush = time.Now() }
